@@ -844,7 +844,16 @@ func TestC09(t *testing.T) {
 	seed := hx.Seed()
 	rng := rand.New(rand.NewSource(seed))
 	out := hx.NewOut()
-	defer out.Close("correspondence: random call trees (<=6 contracts, depth<=3; SSTORE markers, CALL/STATICCALL/DELEGATECALL/CALLCODE to generated contracts and to both precompiles, all 12 state-changing methods + 2 views, valid and failing arguments (early and late failures), origin-token and ERC-20 paths of crossChain/bridgeCall/increaseBridgeFee, executeClaim of pending claims, resources consumed by kept calls only, value transfers, gas caps around RequiredGas, swallow/bubble, REVERT/INVALID/STOP) x gas limits from below intrinsic to ample (random + per-opcode thresholds + cut-offs inside the native action; thorough: dense sweep), real signed MsgEthereumTx; model predicts status/gas/markers/kept calls/logs from tracer-measured costs; reference run = pruned program. non-trivial = distinct (status, #kept, #dropped executed calls, methods)")
+	defer func() {
+		out.Close("correspondence: random call trees (<=6 contracts, depth<=3; SSTORE markers, CALL/STATICCALL/DELEGATECALL/CALLCODE to generated contracts and to both precompiles, all 12 state-changing methods + 2 views, valid and failing arguments (early and late failures), origin-token and ERC-20 paths of crossChain/bridgeCall/increaseBridgeFee, executeClaim of pending claims, resources consumed by kept calls only, value transfers, gas caps around RequiredGas, swallow/bubble, REVERT/INVALID/STOP) x gas limits from below intrinsic to ample (random + per-opcode thresholds + cut-offs inside the native action; thorough: dense sweep), real signed MsgEthereumTx; model predicts status/gas/markers/kept calls/logs from tracer-measured costs; reference run = pruned program. non-trivial = distinct (status, #kept, #dropped executed calls, methods)")
+		// the shared writer drops lines silently after an I/O error (disk full, …): a truncated op file would read as a
+		// disagreement between model and implementation
+		for _, f := range []string{"ops.txt", "impl.txt"} {
+			if n := len(hx.ReadLines(hx.OutDir() + "/" + f)); n != out.Stats.Evaluations {
+				t.Errorf("C09 harness: %s has %d lines, %d were emitted — output truncated by an I/O error of the environment, re-run", f, n, out.Stats.Evaluations)
+			}
+		}
+	}()
 	e := setup(t, out)
 	e.cnt = out.Count
 	nProg := hx.N(400, 2000)
